@@ -291,6 +291,21 @@ def check_history(ctx: Ctx, g: Grid, hist: dict, steps: list, tag: str):
                 ctx.hist("outside-property", "query_datasets error on never-certified collection")
                 continue
             judge([c], t, d, pi, res, "query_datasets")
+        for c, t, d, pi, res in ob.get("qall", []):
+            # without find-first the temporal constraint selects EVERY overlapping validity range: exactly the datasets valid
+            # somewhere in the probe, one result per stored range
+            probe = tuple(probes[pi])
+            if isinstance(res, str) and (c, t) not in summarised and not book.valid.get((c, t, d)):
+                ctx.hist("outside-property", "query_datasets error on never-certified collection")
+                continue
+            ctx.count()
+            want_set = book.datasets_in((c, t, d), probe)
+            want_rows = sorted(ds for (b, e, ds) in byk.get((c, t, d), []) if b < e and max(b, probe[0]) < min(e, probe[1]))
+            if isinstance(res, str) or set(res) != want_set or sorted(res) != want_rows:
+                fail(i, "query_datasets-all:" + ("error" if isinstance(res, str) else "wrong-datasets" if set(res) != want_set else "wrong-multiplicity"),
+                     f"query.datasets(find_first=False) with `timespan OVERLAPS {list(probe)}` returned {res}; the datasets valid in that span are "
+                     f"{sorted(want_set)} (stored ranges: {want_rows})",
+                     lookup={"collections": [c], "type": t, "data_id": d, "probe": list(probe), "result": res})
         prev_rows = rows
         if first_fail is not None:
             break
@@ -477,7 +492,11 @@ def coq_case(hist, steps):
             r = cres_qd(res)
             if r is not None:
                 xpaths.append(f"({clist(cn(c) for c in hist['qd_paths'][qi])}, {cn(t)}, {cn(d)}, {cts(hist['probes'][pi])}, {r})")
-        items.append(f"({cop(op)}, mkObs {out} {rows} {clist(finds)} {clist(paths)} {clist(xpaths)})")
+        alls = []
+        for c, t, d, pi, res in ob.get("qall", []):
+            if isinstance(res, list) and all(isinstance(x, int) and x >= 0 for x in res):
+                alls.append(f"({cn(c)}, {cn(t)}, {cn(d)}, {cts(hist['probes'][pi])}, {clist(cn(x) for x in res)})")
+        items.append(f"({cop(op)}, mkObs {out} {rows} {clist(finds)} {clist(paths)} {clist(xpaths)} {clist(alls)})")
     return clist(items)
 
 
@@ -577,7 +596,7 @@ def _model_compare(ctx: Ctx, name, cases, metas):
         where = out.strip().splitlines()[-2:] if rc == 0 else out[-300:]
         if metas[i]["oracle_failed"]:
             continue   # the oracle already reported this history; the model describes the unbroken code
-        ctx.disagreement(name, metas[i], f"model and implementation differ; first_bad (10*step+component 1 outcome 2 rows 3 find 4 path 5 chained/run path) = {where}")
+        ctx.disagreement(name, metas[i], f"model and implementation differ; first_bad (10*step+component 1 outcome 2 rows 3 find 4 path 5 chained/run path 6 all overlapping rows) = {where}")
 
 
 def run(ctx: Ctx):
